@@ -165,7 +165,7 @@ def check_model(model, rec):
                 lib = prog.command_library
                 before = {k: (id(peek(c)), numpy.ma.getdata(peek(c)).tobytes(), numpy.ma.getmaskarray(peek(c)).tobytes())
                           for k, c in prog.commands.items() if isinstance(peek(c), numpy.ndarray)}
-                targets = [n["name"] for n in model["nodes"] if isinstance(ref[n["name"]], list)][:4]
+                targets = [n["name"] for n in model["nodes"] if isinstance(ref[n["name"]], list) and n["name"] not in bad][:4]
                 for t in targets:
                     prog.add_command(lib["Copy"], "Later_" + t, {"InFieldName": t})
                 prog.run()
